@@ -1371,6 +1371,16 @@ static void cmd_obs(Toks &T)
     j.done();
 }
 
+// expect <e> <nodecount>: what the store model (MddStoreGen) predicts for edge e
+// after the preceding call; recorded next to what the library holds
+static void cmd_expect(Toks &T)
+{
+    int e = T.nexti(); long nc = T.nextl();
+    J j("Expect"); j.i("s", e).i("nc", nc);
+    j.i("ok", 1).raw("res", describe(e, getE(e), true));
+    j.done();
+}
+
 static void cmd_snap(Toks &T)
 {
     int fi = T.nexti();
@@ -1484,6 +1494,7 @@ static void dispatch(Toks &T)
     else if (c == "clearall") cmd_clearall(T);
     else if (c == "obs") cmd_obs(T);
     else if (c == "snap") cmd_snap(T);
+    else if (c == "expect") cmd_expect(T);
     else if (c == "sat") cmd_sat(T);
     else if (c == "evalat") cmd_evalat(T);
     else if (c == "tag") { J j("Tag"); j.s("t", T.more() ? T.next() : ""); j.done(); }
